@@ -103,101 +103,112 @@ func c18(args []string) error {
 			for k := 1; k <= 3; k++ {
 				for v := 1; v <= 4; v++ {
 					st := twins.Settings{NumNodes: uint8(n), NumTwins: uint8(t), Partitions: uint8(k), Views: uint8(v)}
-					var tab viewTable
-					g1 := twins.NewGenerator(hx.Quiet{}, st)
-					announced := g1.Remaining()
-					y1, drained, err := drain(g1, &tab, *limit)
-					if err != nil {
-						return fmt.Errorf("settings %+v: %v", st, err)
-					}
-					g2 := twins.NewGenerator(hx.Quiet{}, st)
-					y2, _, err := drain(g2, &tab, *limit)
-					if err != nil {
-						return err
-					}
-					st1 := st
-					st1.Views = 1
-					g3 := twins.NewGenerator(hx.Quiet{}, st1)
-					lpAnn := int(g3.Remaining())
-					lp1, _, err := drain(g3, &tab, lpAnn+5)
-					if err != nil {
-						return err
-					}
-					lp := []int{}
-					for _, s := range lp1 {
-						lp = append(lp, s[0])
-					}
-					// the 1-view generator is itself subject to the announced-number rule (checked on its own line);
-					// for the odometer model the table must be complete: complete it from the announced size if short
-					ann := int(announced)
-					big := false
-					if announced > 1<<30 {
-						ann, big = 1<<30, true
-					}
-					o.emit(obj{"kind": "gen", "big": big, "n": n, "t": t, "k": k, "v": v, "announced": ann, "drained": drained, "table": tab.table,
-						"yielded": y1, "again": fmt.Sprint(y1) == fmt.Sprint(y2), "lp": lp, "lpAnnounced": lpAnn})
-					// shuffle: same seed -> same order; a permutation of the unshuffled set
-					if v <= 2 || announced <= int64(*limit) {
-						sd := rng.Int63()
-						ga := twins.NewGenerator(hx.Quiet{}, st)
-						ga.Shuffle(sd)
-						gb := twins.NewGenerator(hx.Quiet{}, st)
-						gb.Shuffle(sd)
-						ya, da, err := drain(ga, &tab, *limit)
-						if err != nil {
-							return err
-						}
-						yb, _, err := drain(gb, &tab, *limit)
-						if err != nil {
-							return err
-						}
-						o.emit(obj{"kind": "shuffle", "n": n, "t": t, "k": k, "v": v, "seed": fmt.Sprint(sd), "yielded": ya, "yielded2": yb,
-							"unshuffled": y1, "drained": da && drained})
-					}
-					// JSON round trip of (a sample of) the scenarios
-					if v <= 2 {
-						g4 := twins.NewGenerator(hx.Quiet{}, st)
-						var buf bytes.Buffer
-						wr, err := twins.ToJSON(st, &buf)
-						if err != nil {
-							return err
-						}
-						var before [][]absView
-						for i := 0; i < 40; i++ {
-							s, e := g4.NextScenario()
-							if e != nil {
-								break
+					if err := func() (err error) {
+						// a panic inside the generator is behaviour of the code under test, not a harness failure
+						defer func() {
+							if r := recover(); r != nil {
+								o.emit(obj{"kind": "panic", "n": n, "t": t, "k": k, "v": v, "msg": fmt.Sprint(r)})
 							}
-							if err := wr.WriteScenario(s); err != nil {
+						}()
+						var tab viewTable
+						g1 := twins.NewGenerator(hx.Quiet{}, st)
+						announced := g1.Remaining()
+						y1, drained, err := drain(g1, &tab, *limit)
+						if err != nil {
+							return fmt.Errorf("settings %+v: %v", st, err)
+						}
+						g2 := twins.NewGenerator(hx.Quiet{}, st)
+						y2, _, err := drain(g2, &tab, *limit)
+						if err != nil {
+							return err
+						}
+						st1 := st
+						st1.Views = 1
+						g3 := twins.NewGenerator(hx.Quiet{}, st1)
+						lpAnn := int(g3.Remaining())
+						lp1, _, err := drain(g3, &tab, lpAnn+5)
+						if err != nil {
+							return err
+						}
+						lp := []int{}
+						for _, s := range lp1 {
+							lp = append(lp, s[0])
+						}
+						// the 1-view generator is itself subject to the announced-number rule (checked on its own line);
+						// for the odometer model the table must be complete: complete it from the announced size if short
+						ann := int(announced)
+						big := false
+						if announced > 1<<30 {
+							ann, big = 1<<30, true
+						}
+						o.emit(obj{"kind": "gen", "big": big, "n": n, "t": t, "k": k, "v": v, "announced": ann, "drained": drained, "table": tab.table,
+							"yielded": y1, "again": fmt.Sprint(y1) == fmt.Sprint(y2), "lp": lp, "lpAnnounced": lpAnn})
+						// shuffle: same seed -> same order; a permutation of the unshuffled set
+						if v <= 2 || announced <= int64(*limit) {
+							sd := rng.Int63()
+							ga := twins.NewGenerator(hx.Quiet{}, st)
+							ga.Shuffle(sd)
+							gb := twins.NewGenerator(hx.Quiet{}, st)
+							gb.Shuffle(sd)
+							ya, da, err := drain(ga, &tab, *limit)
+							if err != nil {
 								return err
 							}
-							var b []absView
-							for _, x := range s {
-								b = append(b, toAbsView(x))
+							yb, _, err := drain(gb, &tab, *limit)
+							if err != nil {
+								return err
 							}
-							before = append(before, b)
+							o.emit(obj{"kind": "shuffle", "n": n, "t": t, "k": k, "v": v, "seed": fmt.Sprint(sd), "yielded": ya, "yielded2": yb,
+								"unshuffled": y1, "drained": da && drained})
 						}
-						if err := wr.Close(); err != nil {
-							return err
-						}
-						src, err := twins.FromJSON(&buf)
-						if err != nil {
-							return fmt.Errorf("FromJSON: %v", err)
-						}
-						var after [][]absView
-						for src.Remaining() > 0 {
-							s, e := src.NextScenario()
-							if e != nil {
-								return e
+						// JSON round trip of (a sample of) the scenarios
+						if v <= 2 {
+							g4 := twins.NewGenerator(hx.Quiet{}, st)
+							var buf bytes.Buffer
+							wr, err := twins.ToJSON(st, &buf)
+							if err != nil {
+								return err
 							}
-							var b []absView
-							for _, x := range s {
-								b = append(b, toAbsView(x))
+							var before [][]absView
+							for i := 0; i < 40; i++ {
+								s, e := g4.NextScenario()
+								if e != nil {
+									break
+								}
+								if err := wr.WriteScenario(s); err != nil {
+									return err
+								}
+								var b []absView
+								for _, x := range s {
+									b = append(b, toAbsView(x))
+								}
+								before = append(before, b)
 							}
-							after = append(after, b)
+							if err := wr.Close(); err != nil {
+								return err
+							}
+							src, err := twins.FromJSON(&buf)
+							if err != nil {
+								return fmt.Errorf("FromJSON: %v", err)
+							}
+							var after [][]absView
+							for src.Remaining() > 0 {
+								s, e := src.NextScenario()
+								if e != nil {
+									return e
+								}
+								var b []absView
+								for _, x := range s {
+									b = append(b, toAbsView(x))
+								}
+								after = append(after, b)
+							}
+							o.emit(obj{"kind": "json", "n": n, "t": t, "k": k, "v": v, "before": before, "after": after,
+								"settingsKept": src.Settings().NumNodes == st.NumNodes && src.Settings().NumTwins == st.NumTwins && src.Settings().Views == st.Views})
 						}
-						o.emit(obj{"kind": "json", "n": n, "t": t, "k": k, "v": v, "before": before, "after": after,
-							"settingsKept": src.Settings().NumNodes == st.NumNodes && src.Settings().NumTwins == st.NumTwins && src.Settings().Views == st.Views})
+						return nil
+					}(); err != nil {
+						return err
 					}
 				}
 			}
